@@ -192,6 +192,109 @@ fn directed_long_pin(s: UnpinStrategy) -> u64 {
     200
 }
 
+/// the bound with nothing pinned, after ordinary traffic has had a chance to push leaked entries out
+fn settle_and_check_bound(h: &mut H, next: &mut u64, what: &str) {
+    let keys: Vec<u64> = h.model.keys().cloned().collect();
+    for k in keys { if h.model.get(&k).map(|(_, f)| f.load(Ordering::SeqCst)).unwrap_or(false) { h.unpin(k); } }
+    h.flush(); h.flush();
+    for _ in 0..(h.cap as u64 * 3) { let f = *next; *next += 1; h.put(f, 0, false); }
+    h.flush(); h.flush();
+    let resident = h.live.load(Ordering::SeqCst);
+    if resident > h.cap + SLACK {
+        report_found("resident entries exceed capacity + pinned + slack", &format!("{} [{what}]", h.hist()), &format!("{resident} resident, nothing pinned, capacity {}", h.cap), &format!("<= {}", h.cap + SLACK));
+    }
+}
+
+/// directed: the main area is full of pinned entries; newcomers that were asked for several times before they are
+/// inserted (higher frequency) win the admission duel against pinned probation victims, which are parked; then the owner
+/// unpins everything and ordinary traffic follows. The parked phase must not inflate any region permanently.
+fn directed_popular_newcomers(s: UnpinStrategy, cap: usize) -> u64 {
+    let mut h = H::new(cap, s);
+    h.desc.push_str(" directed: popular newcomers beat pinned probation victims, then everything is unpinned");
+    let n_old = cap as u64;
+    let n_new = cap as u64 * 3 / 2;
+    for k in 0..n_old { h.put(k, k, true); }
+    h.flush();
+    let new_keys: Vec<u64> = (n_old..n_old + n_new).collect();
+    for chunk in new_keys.chunks(16) {
+        for _ in 0..3 { for k in chunk { let _ = h.get(*k); } h.flush(); }
+    }
+    for &k in &new_keys { h.put(k, k, false); }
+    h.flush();
+    for k in 0..n_old {
+        if h.get(k) != Some(k) { report_found("an entry its owner reports as pinned was evicted", &h.hist(), &format!("get({k}) = None"), &format!("Some({k})")); }
+    }
+    let mut next = 1_000_000u64;
+    settle_and_check_bound(&mut h, &mut next, "after the pinned victims were released");
+    n_old + n_new
+}
+
+/// directed: pinned entries arrive while the cache is full (they lose the duel and are parked); the owner then REPLACES
+/// each of them (remove + insert of the same key with an unpinned value) within one maintenance batch.
+fn directed_replace_parked(s: UnpinStrategy, cap: usize) -> u64 {
+    let mut h = H::new(cap, s);
+    h.desc.push_str(" directed: parked entries are removed and re-inserted unpinned within one maintenance batch");
+    let n_cold = cap as u64 * 5 / 4;
+    let n_hot = cap as u64 * 3 / 4;
+    for k in 0..n_cold { h.put(k, k, false); }
+    h.flush();
+    for k in n_cold..n_cold + n_hot { h.put(k, k, true); }
+    h.flush();
+    for k in n_cold..n_cold + n_hot {
+        if h.get(k) != Some(k) { report_found("an entry its owner reports as pinned was evicted", &h.hist(), &format!("get({k}) = None"), &format!("Some({k})")); }
+    }
+    h.flush();
+    for k in n_cold..n_cold + n_hot { h.remove(k); h.put(k, k + 1, false); }
+    h.flush();
+    let mut next = 1_000_000u64;
+    settle_and_check_bound(&mut h, &mut next, "after the parked entries were replaced");
+    n_cold + n_hot
+}
+
+/// random histories at capacities where the bound is not vacuous: phases of pinned inserts under pressure, warmed-up
+/// newcomers, replace (remove + re-insert), unpin, re-pin; the bound is checked after every phase with everything released
+fn random_large(rng: &mut Rng, cap: usize, s: UnpinStrategy, phases: usize) -> u64 {
+    let mut h = H::new(cap, s);
+    h.desc.push_str(" random phases at a capacity above the slack");
+    let mut next = 0u64;
+    let mut steps = 0u64;
+    for ph in 0..phases {
+        let mut mine: Vec<u64> = vec![];
+        let n = cap as u64 / 2 + rng.next() % (cap as u64 * 2);
+        let pin_ratio = rng.next() % 4; // 0: none pinned .. 3: mostly pinned
+        let warm = rng.next() % 3 == 0;
+        let batch: Vec<u64> = (0..n).map(|_| { let k = next; next += 1; k }).collect();
+        if warm {
+            for chunk in batch.chunks(16) { for _ in 0..3 { for k in chunk { let _ = h.get(*k); } h.flush(); } }
+        }
+        for &k in &batch {
+            let pinned = pin_ratio > 0 && rng.next() % 4 < pin_ratio;
+            h.put(k, ph as u64, pinned);
+            if pinned { mine.push(k); }
+            steps += 1;
+            if rng.next() % 40 == 0 { h.flush(); }
+        }
+        h.flush();
+        for &k in &mine {
+            match rng.next() % 6 {
+                0 => { h.remove(k); h.put(k, 7, false); }
+                1 => { h.unpin(k); h.repin(k); }
+                2 => { h.unpin(k); }
+                3 => { h.remove(k); }
+                _ => {}
+            }
+            steps += 1;
+            if rng.next() % 50 == 0 { h.flush(); }
+        }
+        h.flush();
+        h.check(next);
+        let mut fresh = 10_000_000 + next * 8;
+        settle_and_check_bound(&mut h, &mut fresh, &format!("phase {ph}"));
+        // forget the tail traffic in the model's universe: those keys are plain unpinned entries
+    }
+    steps
+}
+
 fn main() {
     let seed = seed_from_args();
     let mut rng = Rng(seed.wrapping_mul(0x9E3779B97F4A7C15) ^ 0xC16);
@@ -210,6 +313,17 @@ fn main() {
         n += run(&format!("directed_empty_probation {s:?}"), &mut || directed_empty_probation(s));
         n += run(&format!("directed_repin {s:?}"), &mut || directed_repin(s));
         n += run(&format!("directed_long_pin {s:?}"), &mut || directed_long_pin(s));
+        for cap in [100usize, 200] {
+            n += run(&format!("directed_popular_newcomers capacity={cap} {s:?}"), &mut || directed_popular_newcomers(s, cap));
+            n += run(&format!("directed_replace_parked capacity={cap} {s:?}"), &mut || directed_replace_parked(s, cap));
+        }
+        for cap in [96usize, 160] {
+            for _ in 0..3 {
+                let sd = rng.next();
+                let mut r2 = Rng(sd);
+                n += run(&format!("random_large capacity={cap} {s:?} seed={sd}"), &mut || random_large(&mut r2, cap, s, 6));
+            }
+        }
         for cap in [1usize, 2, 3, 5, 8] {
             for _ in 0..6 {
                 let sd = rng.next();
